@@ -1083,6 +1083,29 @@ func (t *txRun) op(op *Op) *Violation {
 		r.record(Obs{Op: t.opIdx, Kind: "read", OK: true, Hash: hashBytes(b)})
 		return nil
 
+	case OpLoad:
+		// Load the contents of a page with defined contents into the transaction's private buffer, but do
+		// not modify it: the page stays clean, its contents must survive (checkpoints, commit, reopen)
+		h, ok := pick(t.T, op.A, func(h int, p MPage) bool { return p.Data != nil && t.writable(h, p) })
+		if !ok {
+			r.count("noop")
+			return nil
+		}
+		lp, v := t.page(h)
+		if v != nil {
+			return v
+		}
+		if err := lp.pg.Load(); err != nil {
+			return violationf("load-error", t.idx, "Load() of page %d (handle %d) failed: %v", t.T.Pages[h].ID, h, err)
+		}
+		b, err := lp.pg.Bytes()
+		if err != nil || !bytes.Equal(b, t.T.Pages[h].Data) {
+			return violationf("readback-mismatch", t.idx, "op %d: after Load() page %d (handle %d) reads %s (err=%v), own latest write is %s",
+				t.opIdx, t.T.Pages[h].ID, h, Stamp(b), err, Stamp(t.T.Pages[h].Data))
+		}
+		r.count("load-only")
+		return nil
+
 	case OpFree:
 		h, ok := pick(t.T, op.A, t.freeable)
 		if !ok {
